@@ -2,7 +2,8 @@
 
 The watcher is found by role: the coroutine of the node crate that owns a stream of membership snapshots and the sending end of
 a channel of `MembershipChange`.  It is interpreted over a scripted sequence of snapshots (joins, a leave, an address change, an
-unchanged snapshot, everybody leaving, a rejoin under another address); the snapshot stream, the publication, and the calls on
+unchanged snapshot, everybody leaving, a rejoin under another address, a node replaced by a new id on the same address, a node
+moving onto the address of one that leaves); the snapshot stream, the publication, and the calls on
 the other handles it owns (selector, network, statistics) are modelled effects.  Decided per snapshot: the published delta's
 `joined` is exactly (current minus previous) and its `left` exactly (previous minus current), as (id, address) pairs, the departed
 ones with the address they HAD.  How the watcher computes this (set differences, loops, helper functions, which state it carries)
@@ -23,9 +24,13 @@ SNAPSHOTS = [
     {'n0': 'a0', 'n2': 'a2b', 'n3': 'a3'},
     {'n0': 'a0'},
     {'n0': 'a0', 'n1': 'a1c'},
+    {'n0': 'a0', 'n4': 'a1c'},
+    {'n0': 'a0', 'n4': 'a1c', 'n5': 'a5'},
+    {'n0': 'a0', 'n5': 'a1c'},
 ]
 LABELS = ['first snapshot: two remote nodes', 'one node joins, one leaves', 'a node changes its address', 'an unchanged snapshot',
-          'every remote node leaves', 'a departed node rejoins under another address']
+          'every remote node leaves', 'a departed node rejoins under another address', 'a node is replaced by a new id on the SAME address (restart under a new id)',
+          'another node joins', 'a node leaves and another one moves onto its address']
 
 
 def expected():
